@@ -45,9 +45,19 @@ fn case(rng: &mut Rng, out: &mut CaseOut) {
             oi.remove(rng.below(n));
         }
     }
+    // every decode of the case on its own decoder object: fresh ones and ones
+    // with a past (another configuration, an abandoned round) alternate
+    let pre_seed = rng.next_u64();
+    let counter = std::cell::Cell::new(0u64);
     let decode = |order: &[(bool, usize)]| {
-        codec::make_dec(api, k, r, size, None)
-            .and_then(|mut d| codec::decode_round(d.as_mut(), order, &originals, &recovery, &[]))
+        counter.set(counter.get() + 1);
+        let mut prng = Rng::new(pre_seed ^ counter.get());
+        let dec = if counter.get() % 2 == 0 {
+            crate::mon_c01::preused_decoder(&mut prng, api, rate, k, r, size)
+        } else {
+            codec::make_dec(api, k, r, size, None)
+        };
+        dec.and_then(|mut d| codec::decode_round(d.as_mut(), order, &originals, &recovery, &[]))
     };
     let reference_order = gen::add_order(rng, &oi, &ri, false);
     let reference = match decode(&reference_order) {
